@@ -285,8 +285,10 @@ Definition z_init (c : lcfg) (rs : list (N * ureq)) : lsim :=
       (5: attempt, delay chosen after it);
     trace, oldest first: time, attempt, code (flattened);
     delays chosen after each failed attempt: attempt, delay (flattened)] *)
-Definition life_report (tbl : ptable) (cfg : ucfg) (pol : policy) (behs : list tbeh)
-           (rs : list (N * ureq)) (unicast : bool) : list (list N) :=
+Definition life_report_o (cont_first : bool) (tbl : ptable) (cfg : ucfg) (pol : policy)
+           (behs : list tbeh) (rs0 : list (N * ureq)) (unicast : bool) : list (list N) :=
+  (* requests sent while nextest is stopped are delivered at the Continue, before or after it *)
+  let rs := defer_reqs cont_first rs0 in
   let c := {| lc_unit := cfg; lc_policy := pol; lc_js := fun _ => no_jitter_sample |} in
   match z_simulate tbl c behs rs unicast 500 (z_init c rs) with
   | Panicked => [[1]]
@@ -299,3 +301,6 @@ Definition life_report (tbl : ptable) (cfg : ucfg) (pol : policy) (behs : list t
         flat_map (fun m => match fst (fst m) with 5 => [snd (fst m); snd m] | _ => [] end)
                  (rev (z_marks z)) ]
   end.
+Definition life_report (tbl : ptable) (cfg : ucfg) (pol : policy) (behs : list tbeh)
+           (rs : list (N * ureq)) (unicast : bool) : list (list N) :=
+  life_report_o true tbl cfg pol behs rs unicast.
